@@ -74,6 +74,9 @@ def _cases(tier, seed):
                                 for route in ("set_params", "attribute", "clone"):
                                     yield dict(kind="blockmean", layout=[2, 2], sites=ms, order=order, ncomp=ncomp, w=w, unc=unc,
                                                region=region, center=center, route=route)
+                            if w and region == "given" and ncomp <= 2 and not center:
+                                yield dict(kind="blockmean", layout=[2, 2], sites=ms, order=order, ncomp=ncomp, w="uniform", unc=unc,
+                                           region=region, center=center)
                             if region == "given" and ncomp <= 2:
                                 # other ways of defining the same blocks: a shape, a spacing that does not divide the region with either
                                 # adjustment (mutation survivor: the adjust keyword dropped from BlockMean's block_split call)
@@ -172,6 +175,9 @@ def run(case, rec):
     wts = None
     if case["w"]:
         wts = [np.array([[p + 1.0, (npts - p) + 0.5, 2.0 ** p][c] for p in range(npts)]) for c in range(ncomp)]
+    if case["w"] == "uniform":
+        # every point has the same uncertainty: still weights, not "no weights" (seed C10-9)
+        wts = [np.full(npts, 0.25 * (c + 1)) for c in range(ncomp)]
     rep = case.get("rep")
     sc = 4.0 if rep == "int_e" else 1.0
     if rep == "int_e":
